@@ -7,14 +7,21 @@ circuit emitted by `verify_fri_circuit`) and `P3R.Model.FriShape` (shape validat
 theorem is for an arbitrary field `K` and quantifies over all sizes (no bound on the number of
 phases, bits, columns, matrices or the arity).
 
-Full-strength statement (kept visible; *false of the current code*, see `P3R/Witness/C07.lean`):
+Full-strength statement (kept visible; *false of the current code* — findings C07-F2, F3, F5 —
+see `P3R/Witness/C07.lean`):
 
     ∀ parameters, statement, proof, challenges:
       circuitOutcome env p α βs batches pf = .ok  ↔  verifyFri env p α βs batches pf = .ok ()
 
 What is proved instead, piece by piece (each piece is one mechanism of the property text):
 
-* shape validation       `fri_shape_iff` (under hypotheses H1–H7, each shown necessary)
+* shape validation       `fri_shape_iff` (under hypotheses H1–H6; H1, H2, H4 shown necessary; no
+                         "at least one fold phase" hypothesis any more),
+                         `height_above_two_adicity_rejected_by_both`,
+                         `sibling_count_mismatch_rejected_by_both`
+* no fold phase          `fold_chain_zero_phase`, `subgroup_starts_zero_phase`, `final_point_zero_phase`,
+                         `verify_query_zero_phase`, `query_tail_zero_phase`, `query_check_zero_phase`,
+                         `zero_phase_query_agree`
 * query indices          `selChain_eq_pow`, `reverseBits_eq_bitsToNat`, `query_index_eq`,
                          `query_index_prefix_eq`, `expPow2_eq`
 * row reconstruction     `reconstruct_arity2_eq`, `reconstruct_arity4_eq`, `reconstruct_arity8_eq`
@@ -23,7 +30,7 @@ What is proved instead, piece by piece (each piece is one mechanism of the prope
                          `fold_arity2_path_eq`, `fold_general_eq` (every arity: sequential folds of
                          the evaluations of a polynomial of degree < 2^k give its value at β)
 * reduced openings       `horner_cols_eq`, `native_cols_eq`, `open_input_fast_path_eq`
-* final polynomial       `final_poly_eq`
+* final polynomial       `final_poly_eq`, `final_point_eq` (the point it is evaluated at, every schedule)
 
 Not proved (stated in design_notes/C07.md): equality of the general-arity fold with native's
 *barycentric formula* for arity ≥ 8 (native side of `fold_general_eq`), the roll-in schedule as a
@@ -284,22 +291,26 @@ theorem open_input_fast_path_eq (α inv : K) (ms : List (List K × List K)) (ap 
 parameter; (H2) the schedule's log-arities are at most `max_log_arity` — the circuit has no upper
 bound (the lower bound `1 ≤ log_arity` is checked by both since fixes/C07-2); (H3) every matrix has an opening point; (H4) every matrix height is the
 maximum or one reached by a fold phase — otherwise the circuit constrains that reduced opening
-to zero where native rejects; (H5) one beta per commitment; (H6) the height bound is the field's
-two-adicity (the circuit checks 31 bits); (H7) there is at least one fold phase — the circuit
-rejects zero-phase proofs that native accepts. Each of H1, H2, H4, H7 is necessary:
-`P3R.C07.Witness.*`, and the corresponding inputs are replayed on the real code. -/
+to zero where native rejects; (H5) one beta per commitment; (H6) the field's two-adicity is at
+most the 31 index bits the circuit allows (a fact about the field, not about the proof).
+Each of H1, H2, H4 is necessary: `P3R.C07.Witness.*`, and the corresponding inputs are replayed on
+the real code.
+
+Two former hypotheses are gone because the code now establishes them itself: "at least one fold
+phase" (old H7; repo fix 0e5036a for C07-F4 — the statement now covers proofs without fold
+phase) and "`log_max_height ≤` two-adicity" (second half of the old H6; repo fix c030fca for F9i —
+`verify_circuit` checks it, see `height_above_two_adicity_rejected_by_both`). -/
 theorem fri_shape_iff (sv : ShapeVec)
     (H1 : sv.queries.length = sv.p.numQueries)
     (H2 : ∀ la ∈ sv.firstArities, la ≤ sv.p.maxLogArity)
     (H3 : ∀ b ∈ sv.batches, ∀ m ∈ b, m.2 ≠ [])
     (H4 : ∀ h ∈ sv.heights, h = sv.logMax ∨ h ∈ sv.foldedHeights)
     (H5 : sv.numBetas = sv.numCommits)
-    (H6 : sv.twoAdicity ≤ 31 ∧ sv.logMax ≤ sv.twoAdicity)
-    (H7 : sv.numCommits ≠ 0) :
+    (H6 : sv.twoAdicity ≤ 31) :
     CircuitShapeOk sv ↔ NativeShapeOk sv := by
   constructor
-  · rintro ⟨_, _, c3, _, cpos, c5, _, c7, c8, c9, c10, c11⟩
-    refine ⟨?_, ?_, ?_, ?_, H6.2, c10, c11, ?_, c8, H1, c9, H3, ?_, H4⟩
+  · rintro ⟨_, ctwo, _, c3, _, cpos, c5, c7, c8, c9, c10, c11⟩
+    refine ⟨?_, ?_, ?_, ?_, ctwo, c10, c11, ?_, c8, H1, c9, H3, ?_, H4⟩
     · intro h
       rw [h] at H1
       exact c5 (List.eq_nil_of_length_eq_zero H1)
@@ -308,7 +319,7 @@ theorem fri_shape_iff (sv : ShapeVec)
     · intro q hq; exact (c7 q hq).2.1
     · rw [← c3, H5]
     · intro q hq; exact (c7 q hq).2.2
-  · rintro ⟨n1, n2, n3, n4, _, n6, n7, n8, n9, n10, n11, _, n13, _⟩
+  · rintro ⟨n1, n2, n3, n4, n5, n6, n7, n8, n9, n10, n11, _, n13, _⟩
     have hne : sv.queries ≠ [] := by
       intro h
       rw [h] at n10
@@ -316,7 +327,7 @@ theorem fri_shape_iff (sv : ShapeVec)
     obtain ⟨q0, rest, hq⟩ := List.exists_cons_of_ne_nil hne
     have hfa : sv.firstArities = q0.arities := by simp [ShapeVec.firstArities, hq]
     have hq0 : q0 ∈ sv.queries := by rw [hq]; exact List.mem_cons_self
-    refine ⟨le_trans H6.2 H6.1, H5, by rw [H5, n8], ?_, ?_, hne, by rw [H5]; exact H7, ?_, n9, n11, n6, n7⟩
+    refine ⟨le_trans n5 H6, n5, H5, by rw [H5, n8], ?_, ?_, hne, ?_, n9, n11, n6, n7⟩
     · rw [hfa, H5]
       exact n2 q0 hq0
     · intro la hla
@@ -324,5 +335,209 @@ theorem fri_shape_iff (sv : ShapeVec)
       exact (n3 q0 hq0 la hla).1
     · intro q hq
       exact ⟨by rw [H5]; exact n2 q hq, n4 q hq, n13 q hq⟩
+
+/-- Regression for F9i (repo fix c030fca), for *every* shape vector: a `log_max_height` above the
+field's two-adicity is refused by the circuit side (`InvalidProofShape` in `verify_circuit`; it
+used to reach `two_adic_generator`'s assertion for 28..=31 on BabyBear) as by native
+(`GlobalMaxHeightTooLarge`). -/
+theorem height_above_two_adicity_rejected_by_both (sv : ShapeVec) (h : sv.twoAdicity < sv.logMax) :
+    ¬ CircuitShapeOk sv ∧ ¬ NativeShapeOk sv := by
+  constructor
+  · rintro ⟨_, c, _⟩; omega
+  · rintro ⟨_, _, _, _, n5, _⟩; omega
+
+/-- Regression for F9d (repo fix fc0321f), for *every* shape vector: a query whose sibling counts
+do not match its schedule (`2^log_arity − 1` values per phase) is refused by the circuit side
+(`verify_fri_circuit`'s checked comparison; the targets are now allocated from the proof's own
+count, not from `2^log_arity`) as by native (`SiblingValuesLengthMismatch`). -/
+theorem sibling_count_mismatch_rejected_by_both (sv : ShapeVec) (q : QShape) (hq : q ∈ sv.queries)
+    (h : ¬ SibsOk q) : ¬ CircuitShapeOk sv ∧ ¬ NativeShapeOk sv := by
+  constructor
+  · rintro ⟨_, _, _, _, _, _, _, c7, _⟩; exact h (c7 q hq).2.2
+  · rintro ⟨_, _, _, _, _, _, _, _, _, _, _, _, n13, _⟩; exact h (n13 q hq)
+
+/-! ### Final query point -/
+
+theorem reverseBitsLen_zero (t : Nat) : reverseBitsLen 0 t = 0 := by
+  induction t with
+  | zero => rfl
+  | succ t ih => simp [reverseBitsLen, ih]
+
+/-- Reversing a number of `len` bits inside a window of `len + t` bits shifts the reversal up. -/
+theorem reverseBitsLen_widen (n len t : Nat) (h : n < 2 ^ len) :
+    reverseBitsLen n (len + t) = reverseBitsLen n len * 2 ^ t := by
+  induction len generalizing n with
+  | zero =>
+    have : n = 0 := by simpa using h
+    subst this
+    simp [reverseBitsLen_zero, reverseBitsLen]
+  | succ len ih =>
+    have h2 : n / 2 < 2 ^ len := by
+      rw [pow_succ] at h; omega
+    have e : len + 1 + t = (len + t) + 1 := by omega
+    rw [e]
+    simp only [reverseBitsLen]
+    rw [ih _ h2, pow_add]
+    ring
+
+theorem selChain_replicate_zero [DecidableEq K] (g : K) (t : Nat) (l : List K) :
+    selChain g (List.replicate t (0 : K) ++ l) = selChain (g ^ 2 ^ t) l := by
+  induction t generalizing g with
+  | zero => simp
+  | succ t ih =>
+    simp only [List.replicate_succ, List.cons_append, selChain, ih]
+    have : sel (0 : K) g 1 = 1 := by simp [sel]
+    rw [this, one_mul, ← pow_two, ← pow_mul, pow_succ, Nat.mul_comm]
+
+/-- **`compute_final_query_point`, every arity schedule.** With `total = Σ log_arities` bits consumed
+by folding, the circuit's chain (zeros for the consumed positions, then the remaining index bits
+reversed) is native's `two_adic_generator(log_max)^{reverse_bits_len(index >> total, log_max)}` —
+the point at which `verify_fri` evaluates the final polynomial. (`total = 0`, no fold phase:
+`final_point_zero_phase`, which needs no bound on the index.) -/
+theorem final_point_eq [DecidableEq K] (env : Env K) (logMax total index : Nat) (ht : total ≤ logMax)
+    (hi : index < 2 ^ logMax) :
+    finalPointC env (indexBits logMax index) logMax total =
+      env.tw logMax ^ reverseBitsLen (index / 2 ^ total) logMax := by
+  obtain ⟨L, rfl⟩ : ∃ L, logMax = L + total := ⟨logMax - total, by omega⟩
+  have hlen : (indexBits (L + total) index : List K).length = L + total := by simp [indexBits]
+  have hn : index / 2 ^ total < 2 ^ L := by
+    rw [Nat.div_lt_iff_lt_mul (by positivity), ← pow_add]; exact hi
+  rw [reverseBitsLen_widen _ _ _ hn, Nat.mul_comm, pow_mul]
+  have h := query_index_eq (env.tw (L + total) ^ 2 ^ total) index total L
+  rw [← h]
+  unfold finalPointC
+  simp only [Nat.add_sub_cancel]
+  rw [List.take_of_length_le (l := List.drop total _) (by simp [hlen]),
+    List.take_of_length_le (by simp [hlen]; omega), selChain_replicate_zero]
+  congr 1
+  unfold indexBits
+  rw [← List.map_drop]
+  apply List.ext_getElem
+  · simp
+  · intro i h1 h2
+    simp only [List.length_reverse, List.length_map, List.length_drop, List.length_range] at h1
+    simp only [List.getElem_reverse, List.getElem_map, List.getElem_drop, List.getElem_range,
+      List.length_map, List.length_drop, List.length_range, bitK]
+    have : total + (L + total - total - 1 - i) = total + L - 1 - i := by omega
+    rw [this]
+
+/-! ### A proof without fold phase (repo fix 0e5036a, finding C07-F4)
+
+When every committed matrix already has the final polynomial's height the honest proof has no
+commit phase. Both verifiers then compare the first reduced opening with the final polynomial
+directly; the theorems below say so for the two models, for every field, final polynomial,
+index and height. -/
+
+/-- The circuit's fold chain over no phase is the initial reduced opening, no constraint added. -/
+theorem fold_chain_zero_phase [DecidableEq K] (env : Env K) (bits betas starts : List K)
+    (rollIns : List (Nat × K)) (consumed : Nat) (ro0 : K) :
+    foldChainC env bits betas starts rollIns [] consumed ro0 = pure ro0 := rfl
+
+/-- `precompute_subgroup_starts` over the empty schedule: no start (the code returns early). -/
+theorem subgroup_starts_zero_phase [DecidableEq K] (env : Env K) (bits : List K) (logMax : Nat) :
+    subgroupStartsC env bits logMax [] = [] := by
+  simp [subgroupStartsC]
+
+theorem range_map_reverse {α : Type} (f : Nat → α) (L : Nat) :
+    ((List.range L).map f).reverse = (List.range L).map fun j => f (L - 1 - j) := by
+  apply List.ext_getElem
+  · simp
+  · intro i h1 h2
+    simp only [List.length_reverse, List.length_map, List.length_range] at h1
+    simp only [List.getElem_reverse, List.getElem_map, List.getElem_range, List.length_map,
+      List.length_range]
+
+/-- `compute_final_query_point` with no bit consumed by folding: the chain over all index bits is
+native's `g^{reverse_bits_len(index, log_max)}` (`domain_index = index >> 0`). -/
+theorem final_point_zero_phase [DecidableEq K] (env : Env K) (logMax index : Nat) :
+    finalPointC env (indexBits logMax index) logMax 0 = env.tw logMax ^ reverseBitsLen index logMax := by
+  have hlen : (indexBits logMax index : List K).length = logMax := by simp [indexBits]
+  have h := query_index_eq (env.tw logMax) index 0 logMax
+  simp only [Nat.zero_add, pow_zero, Nat.div_one] at h
+  rw [← h]
+  unfold finalPointC
+  simp only [List.replicate_zero, List.nil_append, List.drop_zero, Nat.sub_zero]
+  rw [List.take_of_length_le (l := indexBits logMax index) (by rw [hlen]),
+    List.take_of_length_le (by simp [hlen])]
+  congr 1
+  unfold indexBits
+  rw [range_map_reverse]
+  rfl
+
+/-- Native `verify_query` over no round: the checks left are the initial height, the final height
+and "no reduced opening left over"; the folded value is the first reduced opening. -/
+theorem verify_query_zero_phase [DecidableEq K] (env : Env K) (p : Params) (index logMax logFinal : Nat)
+    (ro0 : K) :
+    verifyQuery env p index [] [(logMax, ro0)] logMax logFinal =
+      if logMax ≠ logFinal then .error .finalFoldHeightMismatch else .ok ro0 := by
+  unfold verifyQuery
+  by_cases h : logMax = logFinal <;> simp [h] <;> rfl
+
+theorem need_run (b : Bool) (s : CS) : (need b).run s = .ok ((), { unsat := s.unsat || !b }) := rfl
+
+/-- Roll-in map with no fold phase: every reduced opening below the maximum height is constrained
+to zero, no roll-in. -/
+theorem roll_ins_zero_phase [DecidableEq K] (rest acc : List (Nat × K)) (s : CS) :
+    (rollInsC [] rest acc).run s = .ok (acc, { unsat := s.unsat || rest.any (fun e => decide (e.2 ≠ 0)) }) := by
+  induction rest generalizing s with
+  | nil => simp [rollInsC]; rfl
+  | cons e rest ih =>
+    obtain ⟨h, ro⟩ := e
+    simp only [rollInsC, List.idxOf?_nil]
+    show (do need (decide (ro = 0)); rollInsC [] rest acc : CM _).run s = _
+    rw [StateT.run_bind, need_run]
+    simp only [ih]
+    show Except.ok _ = Except.ok _
+    simp [Bool.or_assoc]
+
+/-- Circuit side, no fold phase, any list of further reduced openings: each of those is forced to
+zero (no phase can take it), and the one at the maximum height must equal the final polynomial at
+`g^{reverse_bits_len(index, log_max)}`. (Native instead *rejects* a non-empty `rest` —
+`UnconsumedReducedOpenings`, finding C07-F5, independent of the number of phases.) -/
+theorem query_tail_zero_phase [DecidableEq K] (env : Env K) (logMax index : Nat) (finalPoly : List K)
+    (phases : List (Phase K)) (ro0 : K) (rest : List (Nat × K)) (s : CS) :
+    (queryTailC env logMax 0 [] [] finalPoly (indexBits logMax index) phases ((logMax, ro0) :: rest)).run s =
+      .ok ((), { unsat := s.unsat || rest.any (fun e => decide (e.2 ≠ 0)) ||
+                  !decide (ro0 = evalPoly finalPoly (env.tw logMax ^ reverseBitsLen index logMax)) }) := by
+  unfold queryTailC
+  simp only [List.length_nil, List.range_zero, List.map_nil, List.zip_nil_left, ne_eq, not_true_eq_false,
+    ↓reduceIte]
+  rw [StateT.run_bind, roll_ins_zero_phase]
+  show StateT.run (do
+      let folded ← foldChainC env (indexBits logMax index) [] (subgroupStartsC env (indexBits logMax index) logMax [])
+        [] [] 0 ro0
+      need (decide (folded = evalPolyCircuit finalPoly (finalPointC env (indexBits logMax index) logMax 0))) : CM Unit)
+      { unsat := s.unsat || rest.any fun e => decide (e.2 ≠ 0) } = _
+  rw [fold_chain_zero_phase, pure_bind, need_run, final_poly_eq, final_point_zero_phase]
+
+/-- Native side, no commit phase: the final polynomial at the query's domain point against the
+first reduced opening. -/
+theorem query_check_zero_phase [DecidableEq K] (env : Env K) (p : Params) (logMax index : Nat) (finalPoly : List K)
+    (phases : List (Phase K)) (ro0 : K) :
+    queryCheckN env p [] 0 finalPoly 0 logMax logMax index phases [(logMax, ro0)] =
+      if evalPoly finalPoly (env.tw logMax ^ reverseBitsLen index logMax) ≠ ro0 then .error .finalPolyMismatch
+      else .ok () := by
+  unfold queryCheckN
+  simp only [List.range_zero, List.map_nil, List.zip_nil_left, verify_query_zero_phase, ne_eq,
+    not_true_eq_false, ↓reduceIte, pow_zero, Nat.div_one, npow_eq]
+  rfl
+
+/-- **No fold phase: the two verifiers make the same comparison.** For a proof without commit
+phase whose only reduced opening sits at the maximum height (`log_max = log_blowup +
+log_final_poly_len`, what `fri_shape_iff`'s H4 gives for an empty schedule), the circuit's query
+tail adds no violated constraint exactly when native's per-query check passes — for every field,
+index, final polynomial (any length) and reduced opening. With `open_input` (theorems
+`open_input_fast_path_eq`, `horner_cols_eq`, `native_cols_eq`) this is the whole arithmetic of such
+a proof; `Witness.zero_phase_altered_final_poly_rejected_by_both` instantiates the rejection. -/
+theorem zero_phase_query_agree [DecidableEq K] (env : Env K) (p : Params) (logMax index : Nat) (finalPoly : List K)
+    (phases : List (Phase K)) (ro0 : K) :
+    (queryTailC env logMax 0 [] [] finalPoly (indexBits logMax index) phases [(logMax, ro0)]).run {} =
+        .ok ((), { unsat := false }) ↔
+      queryCheckN env p [] 0 finalPoly 0 logMax logMax index phases [(logMax, ro0)] = .ok () := by
+  rw [query_tail_zero_phase, query_check_zero_phase]
+  by_cases h : ro0 = evalPoly finalPoly (env.tw logMax ^ reverseBitsLen index logMax)
+  · simp [h]
+  · have h' : ¬ evalPoly finalPoly (env.tw logMax ^ reverseBitsLen index logMax) = ro0 := fun e => h e.symm
+    simp [h, h']
 
 end P3R.C07
